@@ -375,7 +375,7 @@ Loop:
 func isTerminator(r rune) bool {
 	// End of input terminates an unquoted string too: next() does not
 	// advance at eof, so lexString would otherwise spin forever.
-	return r == eof || isSep(r) || r == ';' || r == '{' || r == '"' || r == '}'
+	return r == eof || isSep(r) || r == ';' || r == '{' || r == '"' || r == '\'' || r == '}'
 }
 
 func isSep(r rune) bool {
